@@ -106,6 +106,39 @@ WRAPPERS = [
 ]
 
 
+_CTX_MEMO = {}
+
+
+def context_param_args(P, fn, i):
+    """Parameter i of workspace function fn has a struct type defined in one of the contract crates (a context / bundle
+    object such as `QueryCtx { deps, config }` or the stored `Config` handed down by reference) and fn is only called from
+    production code that we see: the argument values at all its production call sites, else None.  Such a parameter has no
+    identity of its own — it is whatever its callers built."""
+    key = (id(P), fn.path, i)
+    if key in _CTX_MEMO:
+        return _CTX_MEMO[key]
+    _CTX_MEMO[key] = None
+    res = None
+    if fn.body is not None and fn.kind in ("fn", "assoc_fn") and i < fn.body.arg_count and "::tests::" not in fn.path:
+        ty = strip_ty(fn.body.locals[i + 1]["ty"])
+        a = P.adts.get(ty) or P.adts.get(re.sub(r"<.*$", "", ty))
+        # a *context* bundle carries a piece of the execution environment (deps / env / info / querier / storage); a bundle of
+        # message fields (`SwapOptions { belief_price, max_spread, to }`) differs per call site and keeps its own identity
+        if a is not None and a["kind"] == "struct" and a["path"].startswith(("halo_pair::", "halo_factory::", "halo_router::")) and \
+                any(re.search(r"cosmwasm_std::(\S*::)?(Deps|DepsMut|Env|MessageInfo|QuerierWrapper)\b|dyn cosmwasm_std::(\S*::)?(Storage|Api)", f_["ty"]) for f_ in a["variants"][0]["fields"]):
+            sites = [(c, cb) for c, cb in P.callers(fn.path) if "::tests::" not in c.path and c.body is not None and c.path != fn.path]
+            if 1 <= len(sites) <= 6:
+                vals = []
+                for c, cb in sites:
+                    cv = P.val_call(c, c.body, cb)
+                    if i < len(cv[4]):
+                        vals.append(cv[4][i])
+                if len(vals) == len(sites):
+                    res = vals
+    _CTX_MEMO[key] = res
+    return res
+
+
 class Roots:
     """Identity-flow roots of a value (DESIGN P5).  Each root is a string:
        P:<fn>#<i><path>   parameter          C:<callee>@<fn>:bb<k><path>   call result
@@ -205,6 +238,13 @@ class Roots:
             if gpo and v[1] in gpo and v[2] < len(gpo[v[1]]):
                 return self.roots(gpo[v[1]][v[2]], path)        # a thin per-variant handler: its parameter is the dispatcher's argument
             fn = self.P.fn(v[1])
+            cs_args = context_param_args(self.P, fn, v[2]) if fn is not None else None
+            if cs_args:
+                # a parameter of a contract-local bundle type (`ctx: &QueryCtx`, `cfg: &Config`): what its call sites pass
+                out_ = set()
+                for av in cs_args:
+                    out_ |= self.roots(av, path)
+                return out_
             path = _strip_wrapper(path)
             if fn is not None and fn.kind == "closure" and v[2] == 0 and path and path[0][0] == "f" and isinstance(path[0][1], int):
                 ov = getattr(self, "capture_override", {}).get(fn.path)
@@ -460,7 +500,7 @@ def ok_exit_blocks(P, fn):
 # guards
 
 _CMP_NAMES = {"eq", "ne", "lt", "le", "gt", "ge", "cmp", "is_zero",
-              "contains", "is_some", "is_none", "is_empty", "any", "all"}
+              "contains", "is_some", "is_none", "is_empty", "any", "all", "is_ok", "is_err"}
 # workspace predicates resolved structurally by names.py: {function path: "equal" | "is_native_token"}
 CMP_ALIASES = {}
 
@@ -498,6 +538,19 @@ def switch_cond(P, fn, b):
     if t["k"] != "switch":
         return None
     v = P.val_operand(fn, (b, len(body.blocks[b]["stmts"])), t["discr"], body)
+    # a bool-returning storage accessor (`fn pair_exists(storage, key) -> bool { PAIRS.load(storage, key).is_ok() }`): the
+    # condition is the accessor's own (single, straight-line) test with the call's arguments substituted
+    core, negs = v, 0
+    while core[0] == "unop" and core[1] == "Not":
+        core, negs = core[2], negs + 1
+    if core[0] == "call" and isinstance(core[3], str) and not cmp_kind(core[3]):
+        g_ = P.fn(core[3]) or P.fn(generic_path(core[3]))
+        if g_ is not None and g_.body is not None and g_.kind in ("fn", "assoc_fn") and storage_accessor(P, g_):
+            iv = inline_call(P, core)
+            if iv is not None and iv[0] in ("call", "binop", "unop"):
+                for _ in range(negs):
+                    iv = ("unop", "Not", iv)
+                return cond_of_value(iv, b)
     return cond_of_value(v, b)
 
 
@@ -863,14 +916,33 @@ _STORE_WRITE = re.compile(r"^cw_storage_plus::(item::Item|map::Map|Item|Map)::(s
 _STORE_READ = re.compile(r"^cw_storage_plus::(item::Item|map::Map|Item|Map)::(load|may_load|range|keys|prefix|has|range_raw|keys_raw)$")
 
 
-def storage_sites(P, fn, writes=True):
-    """[(bb, op, item_path, call value)] ; item_path from the promoted const the method is applied to."""
+def storage_accessor(P, f):
+    """f is a read accessor of the contract's storage: an inlinable (loop-free, write-free, message-free) workspace function
+    that takes the storage by shared reference and reads an item / map entry.  Its reads are attributed to its call sites
+    (with the call's arguments substituted), where the rules about keys and guards look for them."""
+    return (f.body is not None and f.kind in ("fn", "assoc_fn") and re.search(r"dyn cosmwasm_std::Storage", f.sig or "") is not None and
+            _storage_accessor(f) and pure_helper(P, f))
+
+
+def storage_sites(P, fn, writes=True, _own=False):
+    """[(bb, op, item_path, call value)] ; item_path from the promoted const the method is applied to.
+    Reads made through a storage accessor appear at the accessor's call sites, not inside the accessor."""
     out = []
     R = Roots(P)
+    if not writes and not _own and storage_accessor(P, fn) and any("::tests::" not in c.path for c, _cb in P.callers(fn.path)):
+        return out
     for b, p, fr, t in P.calls(fn):
         if p is None:
             continue
         g = generic_path(p)
+        if not writes:
+            af = P.fn(p) or P.fn(g)
+            if af is not None and af.path != fn.path and storage_accessor(P, af):
+                cv_ = P.val_call(fn, fn.body, b)
+                mapping = {("param", af.path, i): a for i, a in enumerate(cv_[4])}
+                for (gb, op, item, lv) in storage_sites(P, af, writes=False, _own=True):
+                    out.append((b, op, item, subst_params(lv, mapping)))
+                continue
         m = (_STORE_WRITE if writes else _STORE_READ).match(g)
         if m:
             v = P.val_call(fn, fn.body, b)
@@ -959,6 +1031,15 @@ def param_index_of_type(fn, ty_pat):
     if not hits:
         # the same parameter taken by reference (`&Asset`, `&[Uint128; 2]`): references are transparent in the value graph
         hits = [i - 1 for i in range(1, fn.body.arg_count + 1) if fn.body.locals[i]["ty"].startswith("&") and re.search(ty_pat, strip_ty(fn.body.locals[i]["ty"]))]
+    if len(hits) > 1 and not re.search(r"MessageInfo|Env", ty_pat):
+        # parameters that are pieces of the transaction's MessageInfo / Env (`contract_addr: Addr` = env.contract.address)
+        # are located through those types, not as parameters of their own
+        taken = set()
+        for tp in (r"^cosmwasm_std::\S*MessageInfo$", r"^cosmwasm_std::\S*Env$"):
+            vp = located_param(fn, tp)
+            if isinstance(vp, VParam) and vp.kind == "piece":
+                taken |= set(vp.pieces.values())
+        hits = [h for h in hits if h not in taken]
     return hits[0] if len(hits) == 1 else None
 
 
@@ -1509,6 +1590,10 @@ def iter_chain(v, depth=0):
                 if inner[0] == "call" and isinstance(inner[3], str) and (last_seg(inner[3]) in _ADAPTORS or last_seg(inner[3]) in _ITER_SRC):
                     v = inner
                     continue
+                m_ref = re.search(r"IntoIterator for &('\w+ )?(mut )?", v[3])
+                if m_ref:
+                    # `for x in &collection` / `&mut collection`: the by-reference IntoIterator impls are iter() / iter_mut()
+                    return ads, ("iter_mut" if m_ref.group(2) else "iter"), inner
                 return ads, "into_iter", inner
             if name in _ADAPTORS and v[4]:
                 ads.append((name, v))
@@ -1678,6 +1763,32 @@ _PURE_MEMO = {}
 _STORE_OR_MSG = re.compile(r"(cw_storage_plus::\S*::(save|update|remove)$|cw2::set_contract_version$)")
 
 
+def _plain_constructor(P, f):
+    """A public associated constructor of a workspace type (`Asset::new(info, amount)`, `AssetInfo::token(addr)`): no `self`
+    parameter, one exit, which is an aggregate of the type itself (or one of its variants).  It is value plumbing."""
+    if f.kind != "assoc_fn" or f.impl_trait is not None or not f.impl_self or f.body is None or len(f.body.blocks) > 12:
+        return False
+    if any(strip_ty(f.body.locals[i]["ty"]) == f.impl_self or re.sub(r"<.*$", "", strip_ty(f.body.locals[i]["ty"])) == f.impl_self for i in range(1, f.body.arg_count + 1)):
+        return False
+    ex = [x for x in exit_sites(P, f)]
+    return len(ex) == 1 and ex[0][3][0] == "agg" and ex[0][3][1] == "adt" and (str(ex[0][3][2]) == f.impl_self or str(ex[0][3][2]).startswith(f.impl_self + "::"))
+
+
+def _storage_accessor(f):
+    """A public storage accessor (`fn load_pair_info(storage: &dyn Storage) -> StdResult<PairInfoRaw> { PAIR_INFO.load(storage) }`):
+    takes the storage by shared reference and reads at least one item / map entry; being loop-free and write-free is checked
+    by the caller.  Its calls are value plumbing around `load(..)`, so provenance looks through them."""
+    if re.search(r"&mut dyn cosmwasm_std::Storage", f.sig or ""):
+        return False
+    for blk in f.body.blocks:
+        t_ = blk["term"]
+        if not blk["cleanup"] and t_["k"] == "call":
+            p, _fr = callee_of(t_)
+            if p and re.search(r"^cw_storage_plus::(item::)?Item::(load|may_load)$|^cw_storage_plus::(map::)?Map::(load|may_load)$", generic_path(p)):
+                return True
+    return False
+
+
 def pure_helper(P, f, depth=0):
     """f is a private, effect-free, loop-free workspace function small enough to be inlined into provenance."""
     key = (id(P), f.path)
@@ -1691,8 +1802,9 @@ def pure_helper(P, f, depth=0):
     if ok and not private:
         # a public free function is inlined too when it is a plain value helper: not one of the resolved role functions
         # (whose call sites the rules anchor on), no querier / storage / deps parameter, not a method of a wire type
-        ok = (f.kind == "fn" and f.path not in getattr(P, "_role_fns", set()) and f.crate != "bignumber" and len(f.body.blocks) <= 24 and
-              not re.search(r"QuerierWrapper|cosmwasm_std::Deps|DepsMut|dyn cosmwasm_std::Storage", f.sig or ""))
+        ok = ((f.kind == "fn" or _plain_constructor(P, f)) and f.path not in getattr(P, "_role_fns", set()) and f.crate != "bignumber" and len(f.body.blocks) <= 24 and
+              not re.search(r"QuerierWrapper|cosmwasm_std::Deps|DepsMut", f.sig or "") and
+              (not re.search(r"dyn cosmwasm_std::Storage", f.sig or "") or _storage_accessor(f)))
         if ok:
             # no arithmetic inside: calculators are anchors of the numeric rules, not value plumbing
             for b_, blk_ in enumerate(f.body.blocks):
@@ -2067,7 +2179,116 @@ def _parse_suffix(path):
     return tuple(out)
 
 
+CURRENT_P = [None]     # the Program under analysis (set by engine.Ctx); lets type-located parameters look at call sites
+
+
+class VParam(int):
+    """A handler input located by type that is not a parameter of its own (roles.param):
+       kind 'bundle': field `field` of the contract-local context struct passed as parameter int(self)
+                      (`ctx: ExecCtx { deps, env, info }`);
+       kind 'piece' : the handler takes only the pieces it uses (`sender: Addr` for info.sender, `contract_addr: Addr` for
+                      env.contract.address, `funds` for info.funds): pieces = {suffix: parameter index}, each confirmed at
+                      every production call site to be that projection of the caller's own MessageInfo / Env."""
+
+    def __new__(cls, base, kind, field=None, pieces=None):
+        o = int.__new__(cls, base)
+        o.kind, o.field, o.pieces = kind, field, dict(pieces or {})
+        return o
+
+
+def vparam_root(fn, vp, path):
+    P = CURRENT_P[0]
+    if vp.kind == "bundle":
+        if P is not None:
+            rs = Roots(P).roots(proj(("param", fn.path, int(vp)), ("f", vp.field)), _parse_suffix(path))
+            if len(rs) == 1:
+                return list(rs)[0]
+        return "P:%s#%d.%s%s" % (fn.path, int(vp), vp.field, path)
+    for suf, k in sorted(vp.pieces.items(), key=lambda x: -len(x[0])):
+        if path.startswith(suf):
+            return param_root(fn, k, path[len(suf):])
+    return "P:%s#?%s" % (fn.path, path)
+
+
+def vparam_arg(cv, vp, suffix=""):
+    """The argument value a call passes for a type-located handler input (projected by `suffix`, e.g. '.sender')."""
+    if not isinstance(vp, VParam):
+        v = cv[4][vp]
+        for e in _parse_suffix(suffix):
+            v = proj(v, e)
+        return v
+    if vp.kind == "bundle":
+        v = proj(cv[4][int(vp)], ("f", vp.field))
+        for e in _parse_suffix(suffix):
+            v = proj(v, e)
+        return v
+    for suf, k in sorted(vp.pieces.items(), key=lambda x: -len(x[0])):
+        if suffix.startswith(suf):
+            v = cv[4][k]
+            for e in _parse_suffix(suffix[len(suf):]):
+                v = proj(v, e)
+            return v
+    return ("unknown", "piece %s not passed" % suffix)
+
+
+_PIECES = {"MessageInfo": (".sender", ".funds"), "Env": (".contract.address",)}
+_VP_MEMO = {}
+
+
+def located_param(fn, ty_pat, _depth=0):
+    """Index of the parameter of `fn` whose type matches, else a VParam (bundle field / pieces), else None."""
+    i = param_index_of_type(fn, ty_pat)
+    if i is not None:
+        return i
+    P = CURRENT_P[0]
+    if P is None or fn.body is None or _depth > 3:
+        return None
+    key = (id(P), fn.path, ty_pat)
+    if key in _VP_MEMO:
+        return _VP_MEMO[key]
+    _VP_MEMO[key] = None
+    res = None
+    # bundle: one contract-local struct parameter with exactly one field of that type
+    hits = []
+    for k in range(fn.body.arg_count):
+        ty = strip_ty(fn.body.locals[k + 1]["ty"])
+        a = P.adts.get(ty) or P.adts.get(re.sub(r"<.*$", "", ty))
+        if a is None or a["kind"] != "struct" or not a["path"].startswith(("halo_pair::", "halo_factory::", "halo_router::")):
+            continue
+        for f_ in a["variants"][0]["fields"]:
+            if re.search(ty_pat, f_["ty"]) or (f_["ty"].startswith("&") and re.search(ty_pat, strip_ty(f_["ty"]))):
+                hits.append((k, f_["name"]))
+    if len(hits) == 1:
+        res = VParam(hits[0][0], "bundle", field=hits[0][1])
+    else:
+        # pieces: parameters that are, at every production call site, a known projection of the caller's own value of that type
+        kind = next((n for n in _PIECES if re.search(ty_pat, "cosmwasm_std::" + n)), None)
+        sites = [(c, cb) for c, cb in P.callers(fn.path) if "::tests::" not in c.path and c.body is not None and c.path != fn.path]
+        if kind and 1 <= len(sites) <= 6:
+            R = Roots(P)
+            pieces = {}
+            for suf in _PIECES[kind]:
+                cand = None
+                for c, cb in sites:
+                    ci = located_param(c, ty_pat, _depth + 1)
+                    if ci is None:
+                        cand = set()
+                        break
+                    want = param_root(c, ci, suf)
+                    cv = P.val_call(c, c.body, cb)
+                    ks = {k for k, a_ in enumerate(cv[4]) if set(R.roots(a_)) == {want}}
+                    cand = ks if cand is None else (cand & ks)
+                if cand and len(cand) == 1:
+                    pieces[suf] = list(cand)[0]
+            if pieces:
+                res = VParam(sorted(pieces.values())[0], "piece", pieces=pieces)
+    _VP_MEMO[key] = res
+    return res
+
+
 def param_root(fn, i, path=""):
+    if isinstance(i, VParam):
+        return vparam_root(fn, i, path)
     ov = OVERRIDDEN.get(fn.path)
     if ov is not None and i < len(ov[1]):
         rs = Roots(ov[0]).roots(ov[1][i], _parse_suffix(path))
